@@ -249,6 +249,29 @@ pub fn c13<T: Px>(thorough: bool) -> Vec<CellDef> {
             }));
         }
     }
+    if n >= 12 && (n % 4 == 0 || thorough) {
+        // forced collisions: products with a sparse tail against addends at every alignment (see deep.rs)
+        let maxnf = n - 3 - es;
+        let z = if thorough { maxnf / 2 + 2 } else { maxnf * 2 / 3 + 2 };
+        let pairs = std::sync::Arc::new(crate::deep::pairs_structured(n, es, z, thorough));
+        let what = format!("a in [1,2) with a {maxnf}-bit fraction shape x b at every scale and shape, exact product with a sparse tail of length >= {z}");
+        for kind in 0..3u8 {
+            v.push(CellDef::new("C13", format!("{}/{}#deep", T::name(), KINDS[kind as usize]), crate::deep::space(n, es, pairs.clone(), maxnf as i32 + 7, thorough, &what), move |k| {
+                let (a, b, c) = k3(k);
+                let (want, nt) = refs::fma(n, es, kind, a, b, c);
+                let (pa, pb, pc) = (T::fb(a), T::fb(b), T::fb(c));
+                let got = guard(|| {
+                    match kind {
+                        0 => pa.mul_add(pb, pc),
+                        1 => pa.mul_sub(pb, pc),
+                        _ => pc.sub_product(pa, pb),
+                    }
+                    .tbr() as u128
+                });
+                Out::cmp(got, (want as u128) << sh::<T>(), nt)
+            }));
+        }
+    }
     if T::fb(0).sqrt().is_some() {
         for (sfx, sp) in unary_sp::<T>(thorough) {
             v.push(CellDef::new("C13", format!("{}/sqrt{}", T::name(), sfx), sp, move |k| {
